@@ -1,0 +1,170 @@
+//! Verification hooks. Compiled only with the `verif` cargo feature (off by default).
+//!
+//! Everything here only *reads* framework state or forwards events to a user-installed sink. Nothing in the crate
+//! behaves differently when the feature is enabled.
+
+//local shortcuts
+use crate::prelude::*;
+use crate::react::verif_access as access;
+
+//third-party shortcuts
+use bevy::prelude::*;
+
+//standard shortcuts
+
+
+//-------------------------------------------------------------------------------------------------------------------
+
+/// Number of registrations held by the type-keyed tables of the reaction cache.
+#[derive(Debug, Default, Clone, Copy, PartialEq, Eq)]
+pub struct TableEntries
+{
+    pub component_insertion : usize,
+    pub component_mutation  : usize,
+    pub component_removal   : usize,
+    pub resource            : usize,
+    pub broadcast           : usize,
+    pub any_entity_event    : usize,
+    pub despawn             : usize,
+}
+
+impl TableEntries
+{
+    pub fn total(&self) -> usize
+    {
+        self.component_insertion + self.component_mutation + self.component_removal + self.resource +
+            self.broadcast + self.any_entity_event + self.despawn
+    }
+}
+
+//-------------------------------------------------------------------------------------------------------------------
+
+/// A read-only view of the framework's bookkeeping.
+///
+/// Tracker order in the arrays: system events, entity reactions, broadcast/entity events, despawns.
+#[derive(Debug, Default, Clone, Copy, PartialEq, Eq)]
+pub struct Snapshot
+{
+    /// Position within the current tree of system commands (0 outside of trees).
+    pub syscommand_counter: usize,
+    /// Number of postponed system commands waiting to run.
+    pub buffered_len: usize,
+    /// Number of 'prepared' metadata entries per access tracker.
+    pub prepared_len: [usize; 4],
+    /// The 'currently reacting' flag per access tracker.
+    pub reacting: [bool; 4],
+    /// True if the despawn tracker still holds a reactor handle.
+    pub despawn_handle_held: bool,
+    /// Number of entities that store a system command.
+    pub storages: usize,
+    /// Number of entities that store a system command whose callback is currently taken out.
+    pub storages_without_callback: usize,
+    /// Registrations in the type-keyed tables.
+    pub table_entries: TableEntries,
+    /// Registrations stored on entities (entity-scoped triggers).
+    pub entity_reactor_entries: usize,
+    /// Number of entities that carry entity-scoped registrations.
+    pub entity_reactor_entities: usize,
+    /// Number of live broadcast/entity event data entities.
+    pub data_entities: usize,
+}
+
+impl Snapshot
+{
+    /// True if no residue of a reaction tree is present.
+    pub fn is_quiescent(&self) -> bool
+    {
+        self.syscommand_counter == 0 &&
+        self.buffered_len == 0 &&
+        self.prepared_len == [0; 4] &&
+        self.reacting == [false; 4] &&
+        !self.despawn_handle_held &&
+        self.storages_without_callback == 0 &&
+        self.data_entities == 0
+    }
+}
+
+//-------------------------------------------------------------------------------------------------------------------
+
+/// Takes a snapshot of the framework's bookkeeping. Requires `ReactPlugin`.
+pub fn snapshot(world: &mut World) -> Snapshot
+{
+    let mut snap = Snapshot::default();
+    access::fill_resources(world, &mut snap);
+    access::fill_queries(world, &mut snap);
+    snap
+}
+
+/// Counts live system event data entities for events of type `T`.
+pub fn count_system_event_data<T: Send + Sync + 'static>(world: &mut World) -> usize
+{
+    access::count_system_event_data::<T>(world)
+}
+
+/// Returns true if `entity` currently carries local data for the entity world reactor `T`.
+pub fn has_entity_world_local<T: EntityWorldReactor>(world: &World, entity: Entity) -> bool
+{
+    access::has_entity_world_local::<T>(world, entity)
+}
+
+//-------------------------------------------------------------------------------------------------------------------
+
+/// The kind of command that reached the system command runner.
+#[derive(Debug, Clone, Copy, PartialEq, Eq)]
+pub enum CommandKind
+{
+    System,
+    SystemEvent{ data_entity: Entity },
+    Resource,
+    EntityInsertion{ source: Entity },
+    EntityMutation{ source: Entity },
+    EntityRemoval{ source: Entity },
+    Despawn{ source: Entity },
+    EntityEvent{ target: Entity, data_entity: Entity },
+    Broadcast{ data_entity: Entity },
+}
+
+/// Why a command was dropped without running its system.
+#[derive(Debug, Clone, Copy, PartialEq, Eq)]
+pub enum AbortReason
+{
+    EntityMissing,
+    StorageMissing,
+    CallbackMissingAtRoot,
+}
+
+/// Events emitted by the runner while it processes commands.
+#[derive(Debug, Clone, Copy, PartialEq, Eq)]
+pub enum RunnerEvent
+{
+    /// A command of the given kind is about to be handed to the runner.
+    Apply{ target: Entity, kind: CommandKind },
+    /// The runner was entered for `target` at tree position `counter`.
+    Enter{ target: Entity, counter: usize },
+    /// The command was dropped.
+    Abort{ target: Entity, reason: AbortReason },
+    /// The command was postponed because its system is currently running.
+    Postponed{ target: Entity },
+    /// The system is about to run.
+    RunBegin{ target: Entity },
+    /// The system has run and its deferred work has been applied.
+    RunEnd{ target: Entity, reinserted: bool },
+    /// A postponed command is about to be replayed.
+    Replay{ target: Entity },
+    /// A postponed command was discarded at the end of the tree.
+    Discard{ target: Entity },
+    /// The runner is returning.
+    Exit{ target: Entity },
+}
+
+/// Install this resource to receive [`RunnerEvent`]s.
+#[derive(Resource)]
+pub struct RunnerSink(pub Box<dyn FnMut(RunnerEvent) + Send + Sync + 'static>);
+
+pub(crate) fn emit(world: &mut World, event: RunnerEvent)
+{
+    let Some(mut sink) = world.get_resource_mut::<RunnerSink>() else { return; };
+    (sink.bypass_change_detection().0)(event);
+}
+
+//-------------------------------------------------------------------------------------------------------------------
